@@ -15,7 +15,8 @@ inductive Effect where
   | keyedWrite            -- dst[k] = …            (k the range key)
   | deleteKeys            -- delete(dst, k) / ordered.Remove(k)
   | commAcc               -- n += …, n++, b = b && …
-  | collectThenSort       -- xs = append(xs, …); … sort(xs) before any other use
+  | collectThenSort       -- xs = append(xs, …); … sort(xs) before any other use, the comparator
+                          -- ordering the collected elements themselves (else see `sortKeys`)
   | collectThenFold       -- xs = append(xs, …); xs only consumed by order-insensitive loops / len
   | orderedInsertThenSort -- om.Set(…); … om.Sort(…) before any other use
   | emitFiles             -- files = append(files, codejen.File{…}) (consumer: path-keyed FS)
@@ -27,6 +28,7 @@ inductive Effect where
   -- call of it is a site of kind `leakCall` in the same table
   | collectReturn
   -- not admissible
+  | collectThenSortByDerivedKey -- sorted, but by something that is not an order on the elements
   | appendUnsorted | firstMatchBreak | firstMatchReturn | lastWriteWins | keyedWriteDerived
   | orderedSideEffect | chainedUpdate | orderedInsert | opaqueEffect | ioEffect | unknown
   deriving DecidableEq, Repr
@@ -48,6 +50,11 @@ structure Site where
   kind : SiteKind
   effects : List Effect
   callees : List String -- module functions / func-typed variables called from the body
+  /-- for a `collectThenSort` whose comparator looks only at some fields of the collected
+      elements: "<slice> by <fields>".  `S_collect_then_sort` needs the order to be antisymmetric
+      on the collected elements, i.e. these fields must determine the element; that premise is
+      not visible syntactically and has to be on `reviewedSortKeys`. -/
+  sortKeys : List String
   outsideRun : Bool     -- enclosing function unreachable from cmd/cli and the public API
   ptrKey : Bool         -- key type whose identity is an address (no sort can fix that)
   deriving Repr
@@ -155,6 +162,11 @@ def Effect.Witness : Effect → Prop
   | .orderedSideEffect =>
       [("a", 1), ("b", 2)].foldl (fun (buf : List String) e => buf ++ [e.1, ": ", toString e.2]) []
         ≠ [("b", 2), ("a", 1)].foldl (fun (buf : List String) e => buf ++ [e.1, ": ", toString e.2]) []
+  | .collectThenSortByDerivedKey =>
+      -- two different sorted permutations of the same collected list: sortedness by a derived,
+      -- non-injective key does not determine the result (ties keep the iteration order)
+      ∃ r₁ r₂ : List (String × String),
+        r₁ ~ r₂ ∧ r₁.Pairwise (fun a b => a.2 ≤ b.2) ∧ r₂.Pairwise (fun a b => a.2 ≤ b.2) ∧ r₁ ≠ r₂
   | .chainedUpdate =>
       [(0, [Tok.param 1]), (1, [Tok.lit 7])].foldl substTok [Tok.param 0]
         ≠ [(1, [Tok.lit 7]), (0, [Tok.param 1])].foldl substTok [Tok.param 0]
@@ -170,5 +182,6 @@ theorem Effect.witness : ∀ e : Effect, e.Witness := by
     | exact N_keyed_write_collision
     | exact N_ordered_side_effect
     | exact N_nested_replace
+    | exact N_sort_by_derived_key
 
 end Cog.Det
